@@ -62,3 +62,24 @@ fn probe_create_file_stays_beneath_output_dir() {
     assert!(!base.join("escape.txt").exists() && !base.join("escape2.txt").exists());
     let _ = fs::remove_dir_all(&base);
 }
+
+/// C19: the derivation paths and the seed reach the algorithm exactly as typed (one path per `-p`, never split or altered).
+#[test]
+fn probe_keyderive_paths_and_seed_verbatim() {
+    for paths in [vec!["a"], vec!["a/b"], vec!["App X/v1.2.3", "x,y", "", "a b", "p;q:r"], vec!["same", "same"], vec!["/", "//", "a/", "/a"]] {
+        let mut argv = vec!["mlar".to_string(), "keyderive".to_string(), "in.key".to_string(), "out.key".to_string()];
+        for p in &paths {
+            argv.push("-p".to_string());
+            argv.push(p.to_string());
+        }
+        let m = app().try_get_matches_from(argv).expect("command line accepted");
+        let (_, sub) = m.subcommand().unwrap();
+        let got: Vec<String> = sub.get_many::<String>("path").unwrap().cloned().collect();
+        assert_eq!(got, paths, "derivation paths handed to keyderive differ from the command line");
+    }
+    for seed in ["s", "a/b", "a,b c", "é/ü", "x y"] {
+        let m = app().try_get_matches_from(["mlar", "keygen", "out.key", "-s", seed]).expect("accepted");
+        let (_, sub) = m.subcommand().unwrap();
+        assert_eq!(sub.get_one::<String>("seed").map(String::as_str), Some(seed));
+    }
+}
